@@ -165,7 +165,7 @@ class Tracker:
         return fails
 
 
-def plain_polls_needed(entries, f):
+def polls_needed(entries, f):
     """number of fetches the reference broker needs to hand out a log when every reply is cut at f bytes and only
     complete top-level entries count (wrapper logs: one batch per fetch is enough for the bound)"""
     if any(e[0] == "wrap" for e in entries):
@@ -195,6 +195,7 @@ def topic_names(rng, n):
 
 
 def make_case(rng, focus="random", profile="debug"):
+    late = focus == "latereply"
     nb = rng.randint(1, 3)
     names = topic_names(rng, rng.randint(1, 3))
     topics, logs = {}, {}
@@ -211,12 +212,14 @@ def make_case(rng, focus="random", profile="debug"):
             if all(l < 0 for l in leaders):
                 leaders[rng.randrange(np_)] = rng.randint(1, nb)
         topics[t] = leaders
-        style_t = rng.choice(["plain", "wrap", "mixed"])
+        style_t = "plain" if late else rng.choice(["plain", "wrap", "mixed"])
         if focus == "fill" and ti == 0:
             fills = [rng.choice([0, 0, 1]), rng.randint(3, 8)] + [rng.choice([0, 1, 2, 5]) for _ in range(np_ - 2)]
             rng.shuffle(fills)
         elif focus == "errlast" and ti == 0:
             fills = [rng.randint(2, 6) for _ in range(np_)]
+        elif late:
+            fills = [rng.randint(3, 8) for _ in range(np_)]
         else:
             fills = [rng.choice([0, 0, 1, 2, 3, 5, 8]) for _ in range(np_)]
         for p in range(np_):
@@ -253,22 +256,39 @@ def make_case(rng, focus="random", profile="debug"):
     sizes = [entry_size(e) for tp in live for e in logs.get(tp, [])]
     M = max(sizes) if sizes else rng.randint(40, 200)
     f = rng.choice([M, M, M + 1, M + rng.randint(1, 40), M + rng.randint(1, 40), 2 * M, 3 * M + 5, 1 << 20])
-    idle0 = rng.random() < 0.2
+    idle0 = (not late) and rng.random() < 0.4
     calls += [T("with_fallback_offset", [T("earliest")]), T("with_fetch_max_bytes_per_partition", [f])]
     if idle0:
         calls.append(T("with_connection_idle_timeout", [0, 0]))
     ops = boot_ops(spec)
     nboot = len(ops)
     ops.append(T("consumer_build", [T("from_client"), calls]))
-    # history
+    # hosts a full poll talks to, with the number of partitions each is asked for
+    hostparts = {}
+    for (t, p) in live:
+        h, port = spec["brokers"][topics[t][p]]
+        hn = h + b":" + str(port).encode()
+        hostparts[hn] = hostparts.get(hn, 0) + 1
+    hostnames = sorted(hostparts)
+    nhosts = len(hostnames)
+    # I/O failures whose effect on the wire is determined by the case (see the report: the order of partitions in a request
+    # that never reaches a broker cannot be told to the model):
+    #  read   - the k-th reply is not delivered (timeout / end of stream); clean only when every call reconnects (idle timeout 0)
+    #  unreach- connect refused (idle timeout 0, a single broker involved)
+    #  write  - the last request is refused (every broker is asked for exactly one partition)
+    io_opts = []
+    if idle0 and nhosts:
+        io_opts += ["read", "read", "read"]
+        if nhosts == 1:
+            io_opts += ["unreach", "unreach"]
+    if nhosts and all(n == 1 for n in hostparts.values()):
+        io_opts += ["write", "write"]
     hist = []
     nh = rng.randint(1, 12)
     ninject = 0
-    read_faults = 0
-    hosts_live = sorted(set(spec["brokers"][topics[t][p]] for (t, p) in live))
-    hostnames = [h + b":" + str(p).encode() for (h, p) in hosts_live]
     pending_unreach = False
-    for _ in range(nh):
+    late_at = rng.randrange(nh) if late else -1
+    for hi_ in range(nh):
         r = rng.random()
         item = {"op": T("poll")}
         kind = "poll"
@@ -276,6 +296,8 @@ def make_case(rng, focus="random", profile="debug"):
             r = r * 0.75 if r > 0.1 else 0.95        # mostly polls, a few errors
         if focus == "errlast" and rng.random() < 0.45:
             r = 0.8
+        if late:
+            r = 2.0 if hi_ == late_at else r * 0.75
         if r < 0.55:
             pass
         elif r < 0.75:
@@ -288,24 +310,28 @@ def make_case(rng, focus="random", profile="debug"):
                 off = 0
             item = {"op": T("consumer_op", [T("seek", [tp[0], tp[1], off])])}
             kind = "seek"
-        elif r < 0.9:
+        elif r > 1.0:
+            # a reply that stays unread on a connection the client keeps using (known finding class C01-late-reply)
+            idx = 3 * rng.randrange(max(1, nhosts)) + rng.choice([1, 2])
+            item["plan"] = {"read": {idx: rng.choice([["fail", "timeout"], "eof"])}}
+            kind = "readfail-keepconn"
+        elif r < 0.88 or not io_opts:
             tp = rng.choice(live if (live and rng.random() < 0.9) else assigned)
             item["inject"] = [("fetch", tp[0], tp[1], rng.choice(CODES), 1)]
             ninject += 1
             kind = "inject"
         else:
-            q = rng.random()
-            if idle0 and hostnames and q < 0.6:
-                item["unreachable"] = [rng.choice(hostnames)]
+            q = rng.choice(io_opts)
+            if q == "unreach":
+                item["unreachable"] = [hostnames[0]]
                 pending_unreach = True
                 kind = "unreachable"
-            elif q < 0.75 or focus != "random":
-                item["plan"] = {"write": {3 * rng.randint(0, max(0, len(hostnames) - 1)): ["fail", rng.choice(["reset", "timeout", "other"])]}}
+            elif q == "write":
+                item["plan"] = {"write": {3 * (nhosts - 1): ["fail", rng.choice(["timeout", "other"])]}}
                 kind = "writefail"
             else:
-                idx = 3 * rng.randint(0, max(0, len(hostnames) - 1)) + rng.choice([1, 2])
-                item["plan"] = {"read": {idx: rng.choice([["fail", "timeout"], ["fail", "reset"], "eof"])}}
-                read_faults += 1
+                idx = 3 * rng.randrange(nhosts) + rng.choice([1, 2])
+                item["plan"] = {"read": {idx: rng.choice([["fail", "timeout"], "eof"])}}
                 kind = "readfail"
         if pending_unreach and kind != "unreachable":
             item["unreachable"] = []
@@ -313,13 +339,16 @@ def make_case(rng, focus="random", profile="debug"):
         hist.append(kind)
         ops.append(item if len(item) > 1 else item["op"])
     # clean tail: as many polls as the slowest partition can need, +1 to see the final empty poll, + one per possibly pending injection
-    need = max([plain_polls_needed(logs.get(tp, []), f) for tp in live] + [0])
-    ntail = need + 1 + ninject + 2 * read_faults
+    need = max([polls_needed(logs.get(tp, []), f) for tp in live] + [0])
+    ntail = need + 1 + ninject
     for i in range(ntail):
         ops.append({"op": T("poll"), "unreachable": []} if i == 0 else T("poll"))
     return {"cluster": spec, "ops": ops, "profile": profile,
             "meta": {"nboot": nboot, "assigned": assigned, "f": f, "hist": hist, "ntail": ntail, "focus": focus, "idle0": idle0,
                      "maxentry": M}}
+
+
+LATE_REPLY_CASES = 12     # per quick tier; these exercise the known finding class C01-late-reply
 
 
 def gen(rng, tier):
@@ -333,6 +362,8 @@ def gen(rng, tier):
         cases.append(make_case(rng, "errlast"))
     for _ in range(30 * n):
         cases.append(make_case(rng, rng.choice(["random", "fill", "errlast"]), profile="release"))
+    for _ in range(LATE_REPLY_CASES * n):
+        cases.append(make_case(rng, "latereply"))
     return cases
 
 
@@ -343,7 +374,7 @@ def walk(case, recs, pid="C01"):
     m = case["meta"]
     spec = case["cluster"]
     info = {"ok_polls": 0, "failed_polls": 0, "data_polls": 0, "data_after_failure": 0, "empty_before_nonempty": 0,
-            "err_after_data": 0, "cut": 0, "desync": 0, "multi_part_reply": 0, "seeks": 0, "fail_kinds": {}}
+            "err_after_data": 0, "cut": 0, "late": 0, "multi_part_reply": 0, "seeks": 0, "fail_kinds": {}, "late_any": False}
     fails = []
     nboot = m["nboot"]
     last = recs[-1]["impl"]
@@ -356,7 +387,7 @@ def walk(case, recs, pid="C01"):
         return fails + ["%s: consumer_build failed: %s" % (pid, dumps(b)[:100])], None, info
     tr = Tracker(spec, m["assigned"], pid)
     f = m["f"]
-    desync = False          # reply bytes were left unread on a connection that stays in use
+    tag = pid               # becomes "<pid>-late-reply" once reply bytes were left unread on a connection that stays in use
     failed_before = False
     for i in range(nboot + 1, len(recs)):
         rec = recs[i]
@@ -366,7 +397,7 @@ def walk(case, recs, pid="C01"):
             t, p, off = op.args[0].args
             info["seeks"] += 1
             if res != T("ok", [[]]):
-                fails.append("%s: %s seek on a consumed partition failed: %s" % (pid, where, dumps(res)[:80]))
+                fails.append("%s: %s seek on a consumed partition failed: %s" % (tag, where, dumps(res)[:80]))
             else:
                 tr.seek((t, p), off)
             continue
@@ -375,26 +406,24 @@ def walk(case, recs, pid="C01"):
         faults = io_fault(rec)
         replies = fetch_replies(rec)
         served_err = [(t, p, e) for rep in replies for (t, ps) in rep for (p, e, hw, msb) in ps if e != 0]
-        # what this poll asked for
+        # what this poll asked for: every request continues exactly where the deliveries stand
         reqs = fetch_requests(rec)
-        if not desync:
-            seen = set()
-            for (h, t, p, off, mb) in reqs:
-                tp = (t, p)
-                if tp not in tr.logs:
-                    fails.append("%s: %s fetch request for %r:%d which is not consumed" % (pid, where, t, p))
-                    continue
-                if tp in seen and not faults:
-                    fails.append("%s: %s partition %r:%d requested twice in one poll" % (pid, where, t, p))
-                seen.add(tp)
-                if off != tr.pos[tp]:
-                    fails.append("%s: %s fetch request for %r:%d asks offset %d, next undelivered offset is %d" % (pid, where, t, p, off, tr.pos[tp]))
-                if pid == "C01" and mb != f:
-                    fails.append("%s: %s fetch request for %r:%d uses max_bytes %d, configured %d" % (pid, where, t, p, mb, f))
+        seen = set()
+        for (h, t, p, off, mb) in reqs:
+            tp = (t, p)
+            if tp not in tr.logs:
+                fails.append("%s: %s fetch request for %r:%d which is not consumed" % (tag, where, t, p))
+                continue
+            if tp in seen:
+                fails.append("%s: %s partition %r:%d requested twice in one poll" % (tag, where, t, p))
+            seen.add(tp)
+            if off != tr.pos[tp]:
+                fails.append("%s: %s fetch request for %r:%d asks offset %d, next undelivered offset is %d" % (tag, where, t, p, off, tr.pos[tp]))
+            if pid == "C01" and mb != f:
+                fails.append("%s: %s fetch request for %r:%d uses max_bytes %d, configured %d" % (tag, where, t, p, mb, f))
         # input-distribution facts read off the replies
         for rep in replies:
-            nparts = sum(len(ps) for _, ps in rep)
-            if nparts > 1:
+            if sum(len(ps) for _, ps in rep) > 1:
                 info["multi_part_reply"] += 1
             for (t, ps) in rep:
                 hollow = False
@@ -413,32 +442,32 @@ def walk(case, recs, pid="C01"):
             info["failed_polls"] += 1
             k = "io:" + "+".join(sorted(faults)) if faults else "code" if served_err else "none"
             info["fail_kinds"][k] = info["fail_kinds"].get(k, 0) + 1
-            if not faults and not served_err and not desync:
-                fails.append("%s: %s poll failed (%s) although no partition reported an error and no I/O failed" % (pid, where, dumps(res)[:60]))
-            if "read" in faults and rec["unread"]:
-                desync = True
-                info["desync"] += 1
+            if not faults and not served_err:
+                fails.append("%s: %s poll failed (%s) although no partition reported an error and no I/O failed" % (tag, where, dumps(res)[:60]))
+            if "read" in faults and not m.get("idle0"):
+                tag = pid + "-late-reply"
+                tr.pid = tag
+                info["late"] += 1
+                info["late_any"] = True
             failed_before = True
             continue
         # successful poll
         info["ok_polls"] += 1
-        if served_err and not desync:
-            fails.append("%s: %s poll succeeded although partition %r:%d answered error code %d" % ((pid, where) + served_err[0]))
+        if served_err:
+            fails.append("%s: %s poll succeeded although partition %r:%d answered error code %d" % ((tag, where) + served_err[0]))
         flag, sets = poll_sets(res)
         nmsgs = sum(len(ms) for _, _, ms in sets)
         if (flag == 1) != (nmsgs == 0):
-            fails.append("%s: %s is_empty()=%d but iterating yields %d message sets with %d messages" % (pid, where, flag, len(sets), nmsgs))
-        if not desync:
-            asked = set((t, p) for (_, t, p, _, _) in reqs)
-            for (t, p, ms) in sets:
-                if (t, p) in tr.logs and (t, p) not in asked:
-                    fails.append("%s: %s delivered data for %r:%d which was not requested in this poll" % (pid, where, t, p))
-        fails += tr.deliver(sets, where, strict=not desync)
+            fails.append("%s: %s is_empty()=%d but iterating yields %d message sets with %d messages" % (tag, where, flag, len(sets), nmsgs))
+        asked = set((t, p) for (_, t, p, _, _) in reqs)
+        for (t, p, ms) in sets:
+            if (t, p) in tr.logs and (t, p) not in asked:
+                fails.append("%s: %s delivered data for %r:%d which was not requested in this poll" % (tag, where, t, p))
+        fails += tr.deliver(sets, where)
         if nmsgs:
             info["data_polls"] += 1
             if failed_before:
                 info["data_after_failure"] += 1
-    info["desync_any"] = desync
     return fails, tr, info
 
 
@@ -447,16 +476,16 @@ def oracle(case, recs, cl):
     if tr is None:
         return fails[:6]
     # liveness: after the clean tail every partition with a leader is drained
-    if len(recs) == len(case["ops"]) and not info["desync_any"]:
+    if len(recs) == len(case["ops"]):
         for tp in tr.assigned:
             if tr.leader.get(tp, -1) < 1:
                 if tr.delivered[tp]:
-                    fails.append("C01: leaderless partition %r:%d delivered data" % tp)
+                    fails.append("%s: leaderless partition %r:%d delivered data" % ((tr.pid,) + tp))
                 continue
             rem = tr.remaining(tp)
             if rem:
-                fails.append("C01: after %d clean polls %d messages of %r:%d are still undelivered (next expected offset %d)"
-                             % (case["meta"]["ntail"], len(rem), tp[0], tp[1], rem[0][0]))
+                fails.append("%s: after %d clean polls %d messages of %r:%d are still undelivered (next expected offset %d)"
+                             % (tr.pid, case["meta"]["ntail"], len(rem), tp[0], tp[1], rem[0][0]))
     return fails[:6]
 
 
@@ -474,7 +503,7 @@ def stats(case, recs):
     spec = case["cluster"]
     s = {"focus:" + m["focus"]: 1, "brokers:%d" % len(spec["brokers"]): 1, "topics:%d" % len(spec["topics"]): 1,
          "order:%s" % ("shuffled" if isinstance(spec.get("order"), int) else spec.get("order", "as-requested")): 1,
-         "profile:" + case.get("profile", "debug"): 1}
+         "profile:" + case.get("profile", "debug"): 1, "idle_timeout_0": 1 if m.get("idle0") else 0}
     for t, ls in spec["topics"].items():
         s["partitions_per_topic:%d" % len(ls)] = s.get("partitions_per_topic:%d" % len(ls), 0) + 1
         s["leaderless_partitions"] = s.get("leaderless_partitions", 0) + sum(1 for l in ls if l < 0)
@@ -492,7 +521,7 @@ def stats(case, recs):
     s["hist_len:%s" % ("1-3" if len(m["hist"]) <= 3 else "4-8" if len(m["hist"]) <= 8 else "9-12")] = 1
     _, tr, info = walk(case, recs)
     for k in ("ok_polls", "failed_polls", "data_polls", "data_after_failure", "empty_before_nonempty", "err_after_data", "cut",
-              "multi_part_reply", "desync"):
+              "multi_part_reply", "late"):
         s["seen:" + k] = info[k]
     for k, v in info["fail_kinds"].items():
         s["failed_poll:" + k] = v
